@@ -2,6 +2,7 @@
 import numpy as np
 from ..env import Fxp, parse_list, tok_list, lims, codes_of, fmt_of, exc_token, tok_bool, tok_exact, flat, OVFS
 from . import base
+from ..arith import hist_of, warm, overwrite_in_place
 
 TRUSTED_BASE = base.TRUSTED_BASE + ['np.sum/cumsum/prod/cumprod/dot/trace/max/min/sort/clip/transpose/diagonal on integer arrays are modelled by list folds and re-indexing (Model/Reduce.lean)']
 ASSUMPTIONS = base.ASSUMPTIONS + ['results up to 53 bits (int64 accumulation exact); np.matmul is not dispatched to a fixed-point kernel, only its values are demanded',
@@ -22,6 +23,12 @@ def mkarr(codes, r, c, s, n, f, **cfg):
     a = np.array(codes, dtype=np.int64)
     if r:
         a = a.reshape(r, c)
+    if hist_of(n, f, r, c, *[v % 97 for v in codes[:3]]) % 3 == 0 and len(codes) > 1:
+        # an array object with a past (content-determined): born with the codes in reversed order, used by every kind of function,
+        # then overwritten element by element in its existing buffer
+        x = Fxp(a.ravel()[::-1].reshape(a.shape).copy(), s, n, f, raw=True, **cfg)
+        warm(x)
+        return overwrite_in_place(x, codes)
     return Fxp(a, s, n, f, raw=True, **cfg)
 
 
